@@ -379,6 +379,17 @@ func (fr *Frame) applyContract(callee *ssa.Function, sp *spec.FuncSpec, args []V
 		g := env.compileBool(e.Expr)
 		vc.fact(implies(cond, g))
 	}
+	if sp.Effect {
+		recv := ""
+		as := args
+		if callee.Signature.Recv() != nil && len(args) > 0 {
+			if vc.S.Sort(args[0].T) == "Iface" {
+				recv = vc.term(pre, args[0])
+			}
+			as = args[1:]
+		}
+		fr.logCall(st, pre, key, recv, as, res)
+	}
 	return packResults(res, resT)
 }
 
@@ -537,7 +548,38 @@ func (fr *Frame) applyIfaceContract(key string, sp *spec.FuncSpec, c *ssa.CallCo
 	for _, e := range sp.Ensures {
 		vc.fact(implies(cond, env.compileBool(e.Expr)))
 	}
+	if sp.Effect {
+		recv := ""
+		if vc.S.Sort(all[0].T) == "Iface" {
+			recv = vc.term(pre, all[0])
+		}
+		fr.logCall(st, pre, key, recv, all[1:], res)
+	}
 	return packResults(res, resT)
+}
+
+// logCall appends the event of an effectful call: string arguments (first two) and an error result are recorded.
+func (fr *Frame) logCall(st, pre *State, key, recv string, args []Val, res []Val) {
+	vc := fr.vc
+	var strs []string
+	for _, a := range args {
+		if a.T != nil && isString(a.T) && a.Re == nil {
+			strs = append(strs, vc.term(pre, a))
+		} else if a.T != nil && vc.S.Sort(a.T) == "Slice_Int" {
+			// []byte payloads are recorded as the string they were converted from
+			vc.declareFun("string_of_Slice_Int", []string{"Slice_Int"}, "String")
+			strs = append(strs, fmt.Sprintf("(string_of_Slice_Int %s)", vc.term(pre, a)))
+		}
+	}
+	errT := ""
+	for _, r := range res {
+		if r.T != nil && vc.S.Sort(r.T) == "Err" {
+			errT = r.Term
+		} else if r.T != nil && isString(r.T) {
+			strs = append(strs, r.Term)
+		}
+	}
+	vc.logEffect(st, key, recv, strs, errT)
 }
 
 // ---------------------------------------------------------------- builtins
@@ -1184,8 +1226,8 @@ func (fr *Frame) modelSort(q string, c *ssa.CallCommon, args []Val, resT types.T
 	vc.declareFun(inv, []string{"Int"}, "Int")
 	vc.fact(fmt.Sprintf("(= (len_%s %s) %s)", srt, nw, ln))
 	vc.fact(fmt.Sprintf("(= (nil_%s %s) (nil_%s %s))", srt, nw, srt, old))
-	vc.fact(fmt.Sprintf("(forall ((?i Int)) (! (=> (and (<= 0 ?i) (< ?i %s)) (and (<= 0 (%s ?i)) (< (%s ?i) %s) (= (%s (%s ?i)) ?i) (= (select (arr_%s %s) ?i) (select (arr_%s %s) (%s ?i))))) :pattern ((select (arr_%s %s) ?i)) :pattern ((%s ?i))))", ln, pi, pi, ln, inv, pi, srt, nw, srt, old, pi, srt, nw, pi))
-	vc.fact(fmt.Sprintf("(forall ((?j Int)) (! (=> (and (<= 0 ?j) (< ?j %s)) (and (<= 0 (%s ?j)) (< (%s ?j) %s) (= (%s (%s ?j)) ?j))) :pattern ((select (arr_%s %s) ?j)) :pattern ((%s ?j))))", ln, inv, inv, ln, pi, inv, srt, old, inv))
+	vc.fact(fmt.Sprintf("(forall ((?i Int)) (! (=> (and (<= 0 ?i) (< ?i %s)) (and (<= 0 (%s ?i)) (< (%s ?i) %s) (= (%s (%s ?i)) ?i) (= (select (arr_%s %s) ?i) (select (arr_%s %s) (%s ?i))))) :pattern ((select (arr_%s %s) ?i))))", ln, pi, pi, ln, inv, pi, srt, nw, srt, old, pi, srt, nw))
+	vc.fact(fmt.Sprintf("(forall ((?j Int)) (! (=> (and (<= 0 ?j) (< ?j %s)) (and (<= 0 (%s ?j)) (< (%s ?j) %s) (= (%s (%s ?j)) ?j))) :pattern ((select (arr_%s %s) ?j))))", ln, inv, inv, ln, pi, inv, srt, old))
 	write := func(v string) {
 		if x.Obj != nil {
 			vc.store(st, &Loc{Cell: x.Obj}, v)
